@@ -6,6 +6,8 @@ import (
 	"fmt"
 	"github.com/bartossh/Computantis/src/transformers"
 	"net"
+	"sort"
+	"strings"
 	"time"
 	"verifharness/svc"
 
@@ -103,7 +105,23 @@ func syncJoinerFrom(p protobufcompiled.GossipAPIServer) (book *accountant.Accoun
 
 // syncOverTransport lets a fresh node sync through the real client side of the gossip service (dial, LoadDag stream,
 // the service's own mapping and hand-over to the ledger) from a peer that serves the given vertices.
-func syncOverTransport(st []*accountant.Vertex) (snap *ledger.Snap, loaded bool, panicked any, ok bool) {
+// awaitLoaded: the sync client returns when the stream has ended; the ledger finishes loading in a goroutine of its own
+// and marks itself loaded a moment later. Polls for that mark for at most max.
+func awaitLoaded(book *accountant.AccountingBook, max time.Duration) bool {
+	for waited := time.Duration(0); ; waited += 5 * time.Millisecond {
+		if book.DagLoaded() {
+			return true
+		}
+		if waited >= max {
+			return false
+		}
+		time.Sleep(5 * time.Millisecond)
+	}
+}
+
+// (expectLoaded: how long the loaded mark is waited for - a verdict 'not loaded' on a clean stream is held back for ten
+// seconds, a malformed stream is given 300 ms to be marked loaded by mistake)
+func syncOverTransport(st []*accountant.Vertex, expectLoaded bool) (snap *ledger.Snap, loaded bool, panicked any, ok bool) {
 	lis := bufconn.Listen(1 << 22)
 	srv := grpc.NewServer()
 	protobufcompiled.RegisterGossipAPIServer(srv, &streamPeer{stream: st, failAfter: -1, badAt: -1})
@@ -141,6 +159,13 @@ func syncOverTransport(st []*accountant.Vertex) (snap *ledger.Snap, loaded bool,
 	case <-time.After(30 * time.Second):
 		return nil, false, nil, false
 	}
+	wait := 300 * time.Millisecond
+	if expectLoaded {
+		wait = 10 * time.Second
+	}
+	if panicked == nil {
+		awaitLoaded(book, wait)
+	}
 	s, err := ledger.TakeSnap(book)
 	if err != nil {
 		return nil, false, panicked, false
@@ -173,7 +198,7 @@ func c14RealTransport(w *core.WorkerCtx) {
 		return
 	}
 	// (a) the clean stream
-	got, loaded, pan, ok := syncOverTransport(cloneStream(st))
+	got, loaded, pan, ok := syncOverTransport(cloneStream(st), true)
 	world.EvalFor("C14", 1)
 	w.R.Count("c14_real_transport_syncs", 1)
 	switch {
@@ -211,7 +236,7 @@ func c14RealTransport(w *core.WorkerCtx) {
 			continue
 		}
 		w.Mark("real transport: corruption %s on a stream of %d", c.name, len(st))
-		_, loaded, pan, ok := syncOverTransport(cs)
+		_, loaded, pan, ok := syncOverTransport(cs, false)
 		if !ok {
 			continue
 		}
@@ -242,42 +267,63 @@ func c14ServedByGossiper(w *core.WorkerCtx) {
 	ctx := context.Background()
 	u := rig.Users
 	syncs := 0
+	liveSet := func(s *ledger.Snap) string {
+		var hs []string
+		for h := range s.Live {
+			hs = append(hs, ledger.Hex(h))
+		}
+		sort.Strings(hs)
+		return strings.Join(hs, ",")
+	}
 	check := func(when string) bool {
-		want, err := ledger.TakeSnap(rig.Book)
-		if err != nil {
-			return false
-		}
-		w.Mark("c14 served by gossiper: sync %s", when)
-		book, returned, release := syncJoinerFrom(rig.Gossip)
-		defer release()
-		if book == nil {
-			return false
-		}
-		syncs++
-		r.Eval(1)
-		r.Count("c14_syncs_from_a_real_gossip_service", 1)
-		r.Nontriv("served-by-gossiper/" + when)
-		if !returned {
-			r.Violate("C14", "sync-failed/served-by-gossiper", "the sync "+when+" did not return within 30 s", nil)
-			return false
-		}
-		got, err := ledger.TakeSnap(book)
-		if err != nil {
-			return false
-		}
-		if !book.DagLoaded() {
-			r.Violate("C14", "sync-failed/served-by-gossiper", fmt.Sprintf("the sync %s left the node not loaded (the peer holds %d vertices)", when, len(want.Live)), nil)
-			return false
-		}
-		for h := range want.Live {
-			if _, ok := got.Live[h]; !ok {
-				r.Violate("C14", "synced-ledger-differs/served-by-gossiper", fmt.Sprintf("after the sync %s the node misses vertex %s which the peer holds (peer %d vertices, node %d)", when, ledger.Hex(h), len(want.Live), len(got.Live)), nil)
+		for attempt := 0; attempt < 4; attempt++ {
+			want, err := ledger.TakeSnap(rig.Book)
+			if err != nil {
 				return false
 			}
-		}
-		if len(got.Live) != len(want.Live) {
-			r.Violate("C14", "synced-ledger-differs/served-by-gossiper", fmt.Sprintf("after the sync %s the node holds %d vertices, the peer %d", when, len(got.Live), len(want.Live)), nil)
-			return false
+			w.Mark("c14 served by gossiper: sync %s", when)
+			book, returned, release := syncJoinerFrom(rig.Gossip)
+			if book == nil {
+				release()
+				return false
+			}
+			if !returned {
+				release()
+				r.Eval(1)
+				r.Violate("C14", "sync-failed/served-by-gossiper", "the sync "+when+" did not return within 30 s", nil)
+				return false
+			}
+			loaded := awaitLoaded(book, 10*time.Second)
+			got, err := ledger.TakeSnap(book)
+			release()
+			after, err2 := ledger.TakeSnap(rig.Book)
+			if err != nil || err2 != nil {
+				return false
+			}
+			if liveSet(want) != liveSet(after) {
+				// the peer's replay ticker admitted a parked vertex while it served: no fixed ledger to compare with
+				r.Count("c14_syncs_repeated_because_the_peer_moved", 1)
+				continue
+			}
+			syncs++
+			r.Eval(1)
+			r.Count("c14_syncs_from_a_real_gossip_service", 1)
+			r.Nontriv("served-by-gossiper/" + when)
+			if !loaded {
+				r.Violate("C14", "sync-failed/served-by-gossiper", fmt.Sprintf("the sync %s left the node not loaded (the peer holds %d vertices)", when, len(want.Live)), nil)
+				return false
+			}
+			for h := range want.Live {
+				if _, ok := got.Live[h]; !ok {
+					r.Violate("C14", "synced-ledger-differs/served-by-gossiper", fmt.Sprintf("after the sync %s the node misses vertex %s which the peer holds (peer %d vertices, node %d)", when, ledger.Hex(h), len(want.Live), len(got.Live)), nil)
+					return false
+				}
+			}
+			if len(got.Live) != len(want.Live) {
+				r.Violate("C14", "synced-ledger-differs/served-by-gossiper", fmt.Sprintf("after the sync %s the node holds %d vertices, the peer %d", when, len(got.Live), len(want.Live)), nil)
+				return false
+			}
+			return true
 		}
 		return true
 	}
